@@ -1,5 +1,6 @@
 import SslModel.Model.Ty
 import SslModel.Model.Int64
+import SslModel.Model.F64
 /-!
   Run-time values (`src/variable.rs`) with their stored tags, and the surface syntax tree
   (`Expr`) — a function value carries its body, so the two types are defined together.
@@ -77,7 +78,7 @@ instance : Inhabited Expr := ⟨.litUnit⟩
 inductive Val where
   | bool (b : Bool)
   | int (i : I64)
-  | float (f : Float)
+  | float (bits : F64)
   | str (s : String)
   | unit
   | arr (elemTy : Ty) (es : List Val)
@@ -89,6 +90,20 @@ inductive Val where
   deriving Inhabited
 
 namespace Val
+
+mutual
+def size : Val → Nat
+  | .arr _ es => 1 + sizeL es
+  | .tup es => 1 + sizeL es
+  | .struct fs => 1 + sizeF fs
+  | _ => 1
+def sizeL : List Val → Nat
+  | [] => 0
+  | v :: vs => 1 + size v + sizeL vs
+def sizeF : List (String × Val) → Nat
+  | [] => 0
+  | (_, v) :: fs => 1 + size v + sizeF fs
+end
 
 /-- `Typed::as_type` — the run-time tag -/
 partial def asType : Val → Ty
